@@ -31,7 +31,7 @@ TECHNIQUE = "runtime monitoring: exception-recording wrapper and postconditions 
 ASSUMPTIONS = ["R-words", "the C02 monitor's assumptions"]
 N = {"quick": 6, "thorough": 8}
 FLOORS = {
-    "quick": {"nontrivial": 100, "counters": {"finder.find_calls": 380, "finder.pairs_returned": 120,
+    "quick": {"nontrivial": 100, "counters": {"finder.find_calls": 300, "finder.pairs_returned": 120,
                                                "finder.start_not_representative": 40,
                                                "spec.specs_examined": 200}},
     "thorough": {"nontrivial": 2000, "counters": {"finder.find_calls": 7500, "finder.pairs_returned": 2400,
